@@ -707,4 +707,103 @@ Qed.
 
 End MultTProof.
 
+
+(* ================= the executed instances (exchange delivers the owners' rows) ================= *)
+Theorem den_par_mult_std (A B : csr F) (pa pk pc : list nat) i j :
+  csr_wf A -> csr_wf B -> csr_nc A = csr_nr B -> psum pa = csr_nr A -> i < csr_nr A ->
+  denCsr (par_mult_std F zero add mul smallm small A B pa pk pc) i j =
+  dropD (dropM (S_in A B pk (owner pa i) i j) + dropM (S_out A B pk (owner pa i) i j)).
+Proof. intros HA HB Hc Hp Hi. unfold par_mult_std. apply den_par_mult; try assumption. reflexivity. Qed.
+
+Lemma par_mult_std_wf (A B : csr F) (pa pk pc : list nat) :
+  csr_wf A -> csr_wf B -> csr_wf (par_mult_std F zero add mul smallm small A B pa pk pc).
+Proof. intros HA HB. unfold par_mult_std. apply par_mult_wf; try assumption. reflexivity. Qed.
+
+Theorem den_par_mult_T_std (A : csc F) (B : csr F) (pk pm pc : list nat) i j :
+  csc_wf A -> csr_wf B -> csc_nr A = csr_nr B -> psum pm = csc_nc A -> length pm = length pk -> i < csc_nc A ->
+  denCsr (par_mult_T_std F zero add mul smallm small A B pk pm pc) i j =
+  dropD (sumF (map (fun s => dropM (T_part A B pk s i j)) (seq 0 (length pk)))).
+Proof.
+  intros HA HB Hc Hp Hl Hi. unfold par_mult_T_std. apply den_par_mult_T; try assumption.
+  intros r i' _. apply Permutation_refl.
+Qed.
+
+(* ================= exactness on "integer" data ================= *)
+Section Exact.
+Variable isint : F -> Prop.
+Hypothesis isint_0 : isint 0.
+Hypothesis isint_add : forall x y, isint x -> isint y -> isint (x + y).
+Hypothesis isint_mul : forall x y, isint x -> isint y -> isint (x * y).
+Hypothesis isint_smallm : forall x, isint x -> smallm x = true -> x = 0.
+Hypothesis isint_small : forall x, isint x -> small x = true -> x = 0.
+
+Lemma isint_sum {X} (f : X -> F) l : (forall x, isint (f x)) -> isint (sumF (map f l)).
+Proof. intros H. induction l as [|x l IH]; simpl; [exact isint_0|apply isint_add; [apply H|exact IH]]. Qed.
+Lemma dropM_int x : isint x -> dropM x = x.
+Proof. intros H. unfold dropm. destruct (smallm x) eqn:E; [symmetry; apply isint_smallm; assumption|reflexivity]. Qed.
+Lemma dropD_int x : isint x -> dropD x = x.
+Proof. intros H. unfold drop. destruct (small x) eqn:E; [symmetry; apply isint_small; assumption|reflexivity]. Qed.
+
+Theorem par_mult_exact_on_integers fetch (A B : csr F) (pa pk pc : list nat) i j :
+  csr_wf A -> csr_wf B -> csr_nc A = csr_nr B ->
+  (forall r k, needs F A pa pk r k = true -> fetch r k = owner_row F B pk pc k) ->
+  psum pa = csr_nr A -> i < csr_nr A ->
+  (forall i k, isint (denCsr A i k)) -> (forall k j, isint (denCsr B k j)) ->
+  denCsr (par_mult F zero add mul smallm small fetch A B pa pk pc) i j = prod_entry F zero add mul A B i j.
+Proof.
+  intros HA HB Hc H3 Hp Hi IA IB. rewrite den_par_mult by assumption.
+  assert (I1 : isint (S_in A B pk (owner pa i) i j)).
+  { apply isint_sum. intros k. destruct (inblk pk (owner pa i) k); [apply isint_mul; [apply IA|apply IB]|exact isint_0]. }
+  assert (I2 : isint (S_out A B pk (owner pa i) i j)).
+  { apply isint_sum. intros k. destruct (negb (inblk pk (owner pa i) k)); [apply isint_mul; [apply IA|apply IB]|exact isint_0]. }
+  rewrite !dropM_int, dropD_int by (try apply isint_add; assumption).
+  apply S_in_out.
+Qed.
+
+Theorem par_mult_T_exact_on_integers fetchT (A : csc F) (B : csr F) (pk pm pc : list nat) i j :
+  csc_wf A -> csr_wf B -> csc_nr A = csr_nr B ->
+  (forall r i, inblk pm r i = true -> Permutation (fetchT r i) (sentT F zero add mul smallm small A B pk pm pc r i)) ->
+  psum pm = csc_nc A -> psum pk = csc_nr A -> length pm = length pk -> i < csc_nc A ->
+  (forall k i, isint (denCsc A k i)) -> (forall k j, isint (denCsr B k j)) ->
+  denCsr (par_mult_T F zero add mul smallm small fetchT A B pk pm pc) i j = prod_T_entry F zero add mul A B i j.
+Proof.
+  intros HA HB Hc H3 Hpm Hpk Hl Hi IA IB. rewrite den_par_mult_T by assumption.
+  assert (I1 : forall s, isint (T_part A B pk s i j)).
+  { intros s. apply isint_sum. intros k. destruct (inblk pk s k); [apply isint_mul; [apply IA|apply IB]|exact isint_0]. }
+  rewrite (sumf_map_ext F zero add _ (fun s => T_part A B pk s i j)) by (intros s _; apply dropM_int, I1).
+  rewrite dropD_int by (apply isint_sum; exact I1).
+  apply T_part_total; assumption.
+Qed.
+
+(* Galerkin product as the AMG setup forms it *)
+Theorem par_galerkin_exact_on_integers (A P : csr F) (pa pc : list nat) i j :
+  csr_wf A -> csr_wf P -> csr_nc A = csr_nr P -> csr_nr A = csr_nr P ->
+  psum pa = csr_nr A -> psum pc = csr_nc P -> length pc = length pa -> i < csr_nc P ->
+  (forall i k, isint (denCsr A i k)) -> (forall k j, isint (denCsr P k j)) ->
+  denCsr (par_galerkin F zero add mul smallm small A P pa pc) i j =
+  sumF (map (fun k => denCsr P k i * prod_entry F zero add mul A P k j) (seq 0 (csr_nr P))).
+Proof.
+  intros HA HP Hc Hn Hpa Hpc Hl Hi IA IP. unfold par_galerkin.
+  set (AP := par_mult_std F zero add mul smallm small A P pa pa pc).
+  assert (WAP : csr_wf AP) by (apply par_mult_std_wf; assumption).
+  assert (WPc : csc_wf (csr_to_csc P)) by (apply csr_to_csc_wf; exact HP).
+  assert (EAP : forall k j', k < csr_nr A -> denCsr AP k j' = prod_entry F zero add mul A P k j').
+  { intros k j' Hk. unfold AP, par_mult_std. apply par_mult_exact_on_integers; try assumption. reflexivity. }
+  assert (IAP : forall k j', isint (denCsr AP k j')).
+  { intros k j'. destruct (Nat.lt_ge_cases k (csr_nr A)) as [Hk|Hk].
+    - rewrite EAP by exact Hk. apply isint_sum. intros l. apply isint_mul; [apply IA|apply IP].
+    - rewrite (den_csr_overflow AP k j' WAP) by exact Hk. exact isint_0. }
+  unfold par_mult_T_std.
+  rewrite par_mult_T_exact_on_integers; try assumption.
+  - unfold prod_T_entry. change (csc_nr (csr_to_csc P)) with (csr_nr P).
+    apply (sumf_map_ext F zero add). intros k Hk. apply in_seq in Hk.
+    rewrite (den_csr_to_csc F zero add P k i HP). rewrite EAP by lia. reflexivity.
+  - change (csc_nr (csr_to_csc P)) with (csr_nr P). symmetry. exact Hn.
+  - intros r i' _. apply Permutation_refl.
+  - change (csc_nr (csr_to_csc P)) with (csr_nr P). lia.
+  - intros k i'. rewrite (den_csr_to_csc F zero add P k i' HP). apply IP.
+Qed.
+
+End Exact.
+
 End ParProofs.
